@@ -122,7 +122,7 @@ def _ival(n, env, lets, depth=0):
             raise _NoEval("division by zero")
         return -(-a // b)
     leaf = env.get("__leaf__")
-    if leaf is not None and k in ("field", "mcall", "call", "index") and not (k == "call" and re.search(r"cmp::(min|max)$", n.get("fn") or "")) and not (k == "mcall" and n["m"] in ("min", "max", "saturating_sub", "wrapping_sub", "checked_sub", "checked_add", "checked_mul", "wrapping_add", "wrapping_mul", "saturating_add", "ok_or_else", "ok_or", "unwrap", "expect", "into", "try_into", "unwrap_or_default", "map_or")):
+    if leaf is not None and k in ("field", "mcall", "call", "index") and not (k == "call" and re.search(r"cmp::(min|max)$", n.get("fn") or "")) and not (k == "mcall" and n["m"] in ("min", "max", "saturating_sub", "wrapping_sub", "checked_sub", "checked_add", "checked_mul", "wrapping_add", "wrapping_mul", "saturating_add", "saturating_mul", "ok_or_else", "ok_or", "unwrap", "expect", "into", "try_into", "unwrap_or_default", "map_or")):
         v = leaf(hirq.render(n))
         if v is not None:
             return v
@@ -171,13 +171,13 @@ def _ival(n, env, lets, depth=0):
     if k == "mcall" and n["m"] in ("ok_or_else", "ok_or", "unwrap", "expect", "unwrap_or_default", "into", "try_into") and hirq.strip(n["recv"]).get("k") in ("mcall", "try", "call", "path", "cast"):
         # `a.checked_sub(b).ok_or_else(..)?` is `a - b` on the path that continues
         return _ival(n["recv"], env, lets, depth + 1)
-    if k == "mcall" and n["m"] in ("wrapping_add", "wrapping_mul", "saturating_add") and len(n["args"]) == 1:
+    if k == "mcall" and n["m"] in ("wrapping_add", "wrapping_mul", "saturating_add", "saturating_mul") and len(n["args"]) == 1:
         a, b = _ival(n["recv"], env, lets, depth + 1), _ival(n["args"][0], env, lets, depth + 1)
         tyf = env.get("__ty__")
         nm = (tyf(n.get("t")) or "") if tyf is not None else ""
         bits = {"u8": 8, "u16": 16, "u32": 32, "u64": 64, "usize": 64}.get(nm)
-        v = a * b if n["m"] == "wrapping_mul" else a + b
-        if bits and n["m"] == "saturating_add":
+        v = a * b if n["m"] in ("wrapping_mul", "saturating_mul") else a + b
+        if bits and n["m"] in ("saturating_add", "saturating_mul"):
             return min(v, (1 << bits) - 1)
         return v & ((1 << bits) - 1) if bits else v
     if k == "mcall" and n["m"] in ("checked_add", "checked_mul") and len(n["args"]) == 1:
